@@ -385,7 +385,7 @@ func writeEvidence(id, tier string, seed int, prop *PropSpec, results []*Harness
 			"harness": r.Spec.Func, "package": r.Spec.Pkg, "bounds": r.Params, "unwind": r.Spec.Unwind,
 			"paths": r.Stats.Paths, "forks": r.Stats.Forks, "instructions": r.Stats.Instrs,
 			"queries": r.SolverQ, "sat": r.SolverSat, "unsat": r.SolverUnsat, "unknown": r.SolverUnknown,
-			"assert_queries": r.Stats.AssertQueries, "solver_time_s": r.SolverTime.Seconds(), "wall_s": r.Wall.Seconds(),
+			"assert_queries": r.Stats.AssertQueries, "assert_queries_cross_checked_z3_5_1": r.CrossChecked, "cross_solver_time_s": r.SolverTime2.Seconds(), "solver_time_s": r.SolverTime.Seconds(), "wall_s": r.Wall.Seconds(),
 			"infeasible_pruned": r.Stats.Infeasible, "note": r.Spec.Note,
 			"unsupported": r.Stats.Unsupported, "unwind_failures": r.Stats.UnwindFail,
 		})
@@ -408,7 +408,7 @@ func writeEvidence(id, tier string, seed int, prop *PropSpec, results []*Harness
 	cov["cover_points"] = covers
 	cov["queries"] = queries
 	cov["solver_time_s"] = solverT
-	cov["solver"] = "z3 (z3 -in, push/pop incremental)"
+	cov["solver"] = "z3 4.8.12 (z3 -in, push/pop incremental); assertion verdicts re-asked of z3 5.1.0 (z3-new -in)"
 	cov["load_time_s"] = loadT.Seconds()
 	cov["known_findings_reproduced"] = kf
 	cov["inconclusive"] = inconclusive
